@@ -282,4 +282,114 @@ MUTATIONS = [
             pass
 
     # step 5 select the first combination that works""")]},
+    {'id': 'c13-margin-sign', 'props': ['C13'], 'tests': 'tests/test_automaticmodefeature.py',
+     'desc': 'fixed-mode verdict subtracts the system margin instead of adding it',
+     'edits': [('gnpy/topology/request.py', """                if round(snr01nm_with_penalty[min_ind], 2) < pathreq.OSNR + equipment['SI']['default'].sys_margins:
+                    msg = f'\\tWarning! Request {pathreq.request_id} computed path from' \\
+                        + f' {pathreq.source} to {pathreq.destination} does not pass with {pathreq.tsp_mode}'""",
+                """                if round(snr01nm_with_penalty[min_ind], 2) < pathreq.OSNR - equipment['SI']['default'].sys_margins:
+                    msg = f'\\tWarning! Request {pathreq.request_id} computed path from' \\
+                        + f' {pathreq.source} to {pathreq.destination} does not pass with {pathreq.tsp_mode}'""")]},
+    {'id': 'c13-mode-order-ascending', 'props': ['C13'], 'tests': 'tests/test_automaticmodefeature.py',
+     'desc': 'modes of one baud rate explored by ascending bit rate',
+     'edits': [('gnpy/topology/request.py', "key=lambda x: (x['bit_rate'], x['equalization_offset_db']), reverse=True)",
+                "key=lambda x: (x['bit_rate'], x['equalization_offset_db']), reverse=False)")]},
+    {'id': 'c13-tx-osnr-accumulates', 'props': ['C13'], 'tests': 'tests/test_automaticmodefeature.py',
+     'desc': 'transmitter OSNR of explored modes accumulates across the mode loop',
+     'edits': [('gnpy/topology/request.py', "                    del roadm_osnr[-1]\n", "")]},
+    {'id': 'c13-gain-clamp-leaks', 'props': ['C13'], 'tests': 'tests/test_automaticmodefeature.py',
+     'desc': 'amplifier gains clamped by a previous baud-rate trial are not restored (state leak in the mode search)',
+     'edits': [('gnpy/topology/request.py', """            for amp, gain in zip(amps, initial_gains):
+                amp.effective_gain = gain
+""", "")]},
+    {'id': 'c13-penalty-below-table', 'props': ['C13'], 'tests': 'tests/test_automaticmodefeature.py',
+     'desc': 'an impairment below the first point of the penalty table gives no penalty instead of blocking',
+     'edits': [('gnpy/core/elements.py', "                      left=float('inf'), right=float('inf'))", "                      left=0.0, right=float('inf'))")]},
+    {'id': 'c13-add-drop-osnr-double', 'props': ['C13'], 'tests': 'tests/test_roadm_restrictions.py',
+     'desc': 'add and drop each contribute the full add_drop_osnr (counted twice on a path)',
+     'edits': [('gnpy/core/elements.py', "roadm_global_impairment['impairment'][0]['roadm-osnr'] = self.params.add_drop_osnr + lin2db(2)",
+                "roadm_global_impairment['impairment'][0]['roadm-osnr'] = self.params.add_drop_osnr")]},
+    {'id': 'c14-stopn-off-by-one', 'props': ['C14'], 'tests': 'tests/test_spectrum_assignment.py',
+     'desc': 'slot range end computed as N+M instead of N+M-1',
+     'edits': [('gnpy/topology/spectrum_assignment.py', "    stopn = nvalue + mvalue - 1\n", "    stopn = nvalue + mvalue\n")]},
+    {'id': 'c14-first-fit-second', 'props': ['C14'], 'tests': 'tests/test_spectrum_assignment.py',
+     'desc': 'first fit returns the second candidate when there are several',
+     'edits': [('gnpy/topology/spectrum_assignment.py', "    if policy == FIRST_FIT and candidates:\n        return candidates[0]",
+                "    if policy == FIRST_FIT and candidates:\n        return candidates[min(1, len(candidates) - 1)]")]},
+    {'id': 'c14-aggregate-aliases-map', 'props': ['C14'], 'tests': 'tests/test_spectrum_assignment.py',
+     'desc': 'tentative assignments of a blocked request are written into the real map of a one-OMS path',
+     'edits': [('gnpy/topology/spectrum_assignment.py', "    bitmap = list(spectrum.bitmap)\n", "    bitmap = spectrum.bitmap\n")]},
+    {'id': 'c14-negative-remaining', 'props': ['C14'], 'tests': 'tests/test_spectrum_assignment.py',
+     'desc': 'stop condition tests remaining == 0 only: an oversized fixed M followed by a free slot aborts',
+     'edits': [('gnpy/topology/spectrum_assignment.py', "            if n is None or remaining_slots_to_serve <= 0:", "            if n is None or remaining_slots_to_serve == 0:")]},
+    {'id': 'c14-unusable-ignored', 'props': ['C14'], 'tests': 'tests/test_spectrum_assignment.py',
+     'desc': 'unusable slots of the other OMS of a path are treated as free when maps are aggregated',
+     'edits': [('gnpy/topology/spectrum_assignment.py', "        if bit1 in [BitmapValue.UNUSABLE, BitmapValue.OCCUPIED] or bit2 in [BitmapValue.UNUSABLE, BitmapValue.OCCUPIED]:",
+                "        if bit1 in [BitmapValue.OCCUPIED] or bit2 in [BitmapValue.UNUSABLE, BitmapValue.OCCUPIED]:")]},
+    {'id': 'c14-forward-only', 'props': ['C14'], 'tests': 'tests/test_spectrum_assignment.py',
+     'desc': 'spectrum only checked and booked on the forward direction',
+     'edits': [('gnpy/topology/spectrum_assignment.py', "            path_oms = build_path_oms_id_list(pth + rpth)", "            path_oms = build_path_oms_id_list(pth)")]},
+    {'id': 'c15-reversed-oms-first-only', 'props': ['C15'], 'tests': 'tests/test_spectrum_assignment.py',
+     'desc': 'opposite OMS matched on one end point only',
+     'edits': [('gnpy/topology/spectrum_assignment.py', """            if (oms.el_id_list[0] == this_o.el_id_list[-1] and
+                    oms.el_id_list[-1] == this_o.el_id_list[0]):""", """            if (oms.el_id_list[0] == this_o.el_id_list[-1]):""")]},
+    {'id': 'c15-band-from-first-amp', 'props': ['C15'], 'tests': 'tests/test_spectrum_assignment.py',
+     'desc': 'usable band taken from the first amplifier of the OMS instead of the common range',
+     'edits': [('gnpy/topology/spectrum_assignment.py', "    common_range = find_elements_common_range(oms.el_list, equipment)",
+                "    common_range = find_elements_common_range(oms.el_list[:2], equipment)")]},
+    {'id': 'c15-insert-right-duplicate', 'props': ['C15'], 'tests': 'tests/test_spectrum_assignment.py',
+     'desc': 'right padding repeats slot index n_max',
+     'edits': [('gnpy/topology/spectrum_assignment.py', "list(range(self.n_max + 1, self.n_max + 1 + len(newbitmap)))",
+                "list(range(self.n_max, self.n_max + len(newbitmap)))")]},
+    {'id': 'c15-map-one-slot-short', 'props': ['C15'], 'tests': 'tests/test_spectrum_assignment.py',
+     'desc': 'OMS map one slot short when its last band ends below the network maximum',
+     'edits': [('gnpy/topology/spectrum_assignment.py', "    n_max = frequency_to_n(f_max, grid)\n    common_range",
+                "    n_max = frequency_to_n(f_max, grid) - 1\n    common_range")]},
+    {'id': 'c15-insert-left-shift', 'props': ['C15'], 'tests': 'tests/test_spectrum_assignment.py',
+     'desc': 'left padding shifts the slot indices by one',
+     'edits': [('gnpy/topology/spectrum_assignment.py', "        temp = list(range(self.n_min - len(newbitmap), self.n_min))",
+                "        temp = list(range(self.n_min - len(newbitmap) + 1, self.n_min + 1))")]},
+    {'id': 'c16-no-path-copy', 'props': ['C16'], 'tests': 'tests/test_path_computation_functions.py',
+     'desc': 'requests are propagated on the network elements themselves instead of a per-request copy',
+     'edits': [('gnpy/topology/request.py', "        total_path = deepcopy(pathlist[i])\n", "        total_path = list(pathlist[i])\n")]},
+    {'id': 'c16-no-reverse-copy', 'props': ['C16'], 'tests': 'tests/test_path_computation_functions.py',
+     'desc': 'the reverse direction of a bidirectional request is propagated on the network elements themselves',
+     'edits': [('gnpy/topology/request.py', "                rev_p = deepcopy(reversed_path)\n", "                rev_p = list(reversed_path)\n")]},
+    {'id': 'c17-voa-export-rounded', 'props': ['C17'], 'tests': 'tests/test_parser.py',
+     'desc': 'exported output VOA rounded to an integer',
+     'edits': [('gnpy/core/elements.py', """                # defined per lambda on the amp band
+                'out_voa': self.out_voa,""", """                # defined per lambda on the amp band
+                'out_voa': round(self.out_voa) if self.out_voa is not None else None,""")]},
+    {'id': 'c17-raman-estimate-no-restore', 'props': ['C17'], 'tests': 'tests/test_network_functions.py',
+     'desc': 'Raman gain estimation at design time does not restore the simulation parameters',
+     'edits': [('gnpy/core/network.py', "        node.estimated_gain = estimated_gain\n        SimParams.set_params(save_sim_params)\n",
+                "        node.estimated_gain = estimated_gain\n")]},
+    {'id': 'c17-export-drops-lumped', 'props': ['C17'], 'tests': 'tests/test_parser.py',
+     'desc': 'fibre export without its lumped losses',
+     'edits': [('gnpy/core/elements.py', "        if len(self.params.lumped_losses) > 0:\n", "        if len(self.params.lumped_losses) > 99:\n")]},
+    {'id': 'c17-delta-p-export-rounded', 'props': ['C17'], 'tests': 'tests/test_parser.py',
+     'desc': 'amplifier power offset exported with one decimal',
+     'edits': [('gnpy/core/elements.py', "                'delta_p': self.delta_p,\n                'tilt_target': round(tilt_target, 5)",
+                "                'delta_p': round(self.delta_p, 1) if self.delta_p is not None else None,\n                'tilt_target': round(tilt_target, 5)")]},
+    {'id': 'c18-loss-coef-two-digits', 'props': ['C18'], 'tests': 'tests/test_legacy_yang.py',
+     'desc': 'loss_coef converted with 2 fraction digits instead of 6',
+     'edits': [('gnpy/yang/precision_dict.py', '    "loss_coef": 6,', '    "loss_coef": 2,')]},
+    {'id': 'c18-degree-drops-psw', 'props': ['C18'], 'tests': 'tests/test_legacy_yang.py',
+     'desc': 'per-degree power-per-slot-width targets lost when converting back to legacy',
+     'edits': [('gnpy/tools/yang_convert_utils.py', """        'per_degree_psd_out_mWperGHz',
+        'per_degree_psd_out_mWperSlotWidth'
+    ]
+
+    for target in power_targets:""", """        'per_degree_psd_out_mWperGHz'
+    ]
+
+    for target in power_targets:""")]},
+    {'id': 'c18-trx-alias-name', 'props': ['C18'], 'tests': 'tests/test_json_io.py',
+     'desc': 'transceiver aliases report a neighbouring name',
+     'edits': [('gnpy/tools/json_io.py', "                        entry_without_other_name['type_variety'] = other_name\n                        equipment[key][other_name] = Transceiver(",
+                "                        entry['type_variety'] = other_name\n                        equipment[key][other_name] = Transceiver(")]},
+    {'id': 'c18-second-si-range', 'props': ['C18'], 'tests': 'tests/test_legacy_yang.py',
+     'desc': 'power range converted back for the first SI entry only',
+     'edits': [('gnpy/tools/yang_convert_utils.py', "    for si in json_data.get('SI', []):\n        if 'power_range_dict_db' in si:",
+                "    for si in json_data.get('SI', [])[:1]:\n        if 'power_range_dict_db' in si:")]},
 ]
